@@ -15,7 +15,9 @@ import (
 	"math/rand"
 	"net"
 	"os"
+	"runtime"
 	"sort"
+	"strings"
 	"strconv"
 	"sync"
 	"testing"
@@ -48,13 +50,17 @@ type sim struct {
 	recs []rec
 	q    []*dgram
 	all  []*dgram
-	deliver chan struct{}
+	loops   int                    // goroutines running Serve on the one server
+	loopOf  map[uint64]int         // goroutine id -> loop
+	deliver map[int]chan struct{}  // per loop: the next datagram goes to this loop's pending ReadFrom
+	retGate map[int]chan struct{}  // per loop: a ReadFrom that has filled its buffer and waits to return
 	closed  bool
 	closeCh chan struct{}
 	gates   map[int]chan struct{}
 	order   []int // ids of spawned handlers in spawn order
 	trace   []map[string]any
 	returned bool
+	returnedLoop map[int]bool
 }
 
 // the stock loggers write to os.Stderr as it is when the option is built: silence it for this test process
@@ -62,6 +68,14 @@ func init() {
 	if f, err := os.OpenFile(os.DevNull, os.O_WRONLY, 0); err == nil {
 		os.Stderr = f
 	}
+}
+
+func goid() uint64 {
+	var buf [64]byte
+	n := runtime.Stack(buf[:], false)
+	f := strings.Fields(string(buf[:n]))
+	id, _ := strconv.ParseUint(f[1], 10, 64)
+	return id
 }
 
 func h(b []byte) string { s := sha256.Sum256(b); return hex.EncodeToString(s[:8]) }
@@ -93,21 +107,31 @@ var errClosed = errors.New("use of closed network connection")
 var errRead = errors.New("read: connection refused")
 
 func (s *sim) ReadFrom(b []byte) (int, net.Addr, error) {
-	s.add(3, "ReadCall")
+	s.mu.Lock()
+	lp := s.loopOf[goid()]
+	dl := s.deliver[lp]
+	s.mu.Unlock()
+	s.add(3, "ReadCall", "lp", lp)
 	select {
-	case <-s.deliver:
+	case <-dl:
 	case <-s.closeCh:
 		return 0, nil, errClosed
 	}
 	s.mu.Lock()
 	d := s.q[0]
 	s.q = s.q[1:]
+	gate := make(chan struct{})
+	s.retGate[lp] = gate
 	s.mu.Unlock()
-	s.add(1, "Read", "id", d.id)
+	n := 0
+	if d.kind != "err" {
+		n = copy(b, d.b) // the caller's buffer holds the datagram from here on
+	}
+	s.add(1, "Read", "id", d.id, "lp", lp)
+	<-gate // the scheduler decides when this ReadFrom returns (another loop may read in between)
 	if d.kind == "err" {
 		return 0, nil, errRead
 	}
-	n := copy(b, d.b)
 	return n, s.senderAddr(d), nil
 }
 
@@ -298,10 +322,31 @@ func (st step) str(i int) string { var n string; json.Unmarshal(st[i], &n); retu
 func (s *sim) pendingReads() int { s.mu.Lock(); defer s.mu.Unlock(); return len(s.q) }
 
 func (s *sim) run(t *testing.T, steps []step, randomN int) {
-	s.deliver = make(chan struct{})
+	if s.loops == 0 {
+		s.loops = 1
+	}
+	s.deliver = map[int]chan struct{}{}
+	s.retGate = map[int]chan struct{}{}
+	s.loopOf = map[uint64]int{}
+	s.returnedLoop = map[int]bool{}
 	s.closeCh = make(chan struct{})
 	s.gates = map[int]chan struct{}{}
-	done := make(chan error, 1)
+	done := map[int]chan error{}
+	for lp := 1; lp <= s.loops; lp++ {
+		s.deliver[lp] = make(chan struct{})
+		done[lp] = make(chan error, 1)
+	}
+	serve := func(f func() error) {
+		for lp := 1; lp <= s.loops; lp++ {
+			lp := lp
+			go func() {
+				s.mu.Lock()
+				s.loopOf[goid()] = lp
+				s.mu.Unlock()
+				done[lp] <- f()
+			}()
+		}
+	}
 	if s.v4 {
 		srv, err := server4.NewServer("", nil, func(conn net.PacketConn, peer net.Addr, m *dhcpv4.DHCPv4) {
 			s.handle(peer, m.ToBytes)
@@ -310,7 +355,7 @@ func (s *sim) run(t *testing.T, steps []step, randomN int) {
 		if err != nil {
 			t.Fatal(err)
 		}
-		go func() { done <- srv.Serve() }()
+		serve(srv.Serve)
 	} else {
 		srv, err := server6.NewServer("", nil, func(conn net.PacketConn, peer net.Addr, m dhcpv6.DHCPv6) {
 			s.handle(peer, m.ToBytes)
@@ -319,21 +364,57 @@ func (s *sim) run(t *testing.T, steps []step, randomN int) {
 		if err != nil {
 			t.Fatal(err)
 		}
-		go func() { done <- srv.Serve() }()
+		serve(srv.Serve)
 	}
 	s.flush()
-	doRead := func() bool {
-		if s.returned || s.pendingReads() == 0 {
+	// doReturn lets loop lp's ReadFrom return (0: every parked one)
+	doReturn := func(lp int) bool {
+		s.mu.Lock()
+		var gs []chan struct{}
+		for l, g := range s.retGate {
+			if lp == 0 || l == lp {
+				gs = append(gs, g)
+				delete(s.retGate, l)
+			}
+		}
+		s.mu.Unlock()
+		for _, g := range gs {
+			close(g)
+		}
+		if len(gs) > 0 {
+			s.flush()
+			s.checkReturn(done)
+		}
+		return len(gs) > 0
+	}
+	// doRead hands the next datagram to loop lp's pending ReadFrom (0: whichever loop is waiting); the call
+	// stays parked before returning until doReturn
+	doRead := func(lp int) bool {
+		if s.pendingReads() == 0 {
 			return false
 		}
-		select {
-		case s.deliver <- struct{}{}:
-		default:
-			return false
+		order := []int{lp}
+		if lp == 0 {
+			order = s.rng.Perm(s.loops)
+			for i := range order {
+				order[i]++
+			}
 		}
-		s.flush()
-		s.checkReturn(done)
-		return true
+		for _, l := range order {
+			s.mu.Lock()
+			_, parked := s.retGate[l]
+			s.mu.Unlock()
+			if parked {
+				continue
+			}
+			select {
+			case s.deliver[l] <- struct{}{}:
+				s.flush()
+				return true
+			default:
+			}
+		}
+		return false
 	}
 	doFinish := func(k int) bool {
 		s.mu.Lock()
@@ -369,7 +450,12 @@ func (s *sim) run(t *testing.T, steps []step, randomN int) {
 		case "Arrive":
 			s.arrive(st.str(1), st.str(2), st.int(3))
 		case "Read":
-			doRead()
+			doRead(st.int(1))
+			if s.loops == 1 {
+				doReturn(1)
+			}
+		case "Spawn", "ParseFail", "ReadErrReturn":
+			doReturn(st.int(1))
 		case "Finish":
 			doFinish(st.int(1))
 		case "Close":
@@ -386,8 +472,13 @@ func (s *sim) run(t *testing.T, steps []step, randomN int) {
 				k = "err"
 			}
 			s.arrive(k, senders[s.rng.Intn(len(senders))], []int{68, 1068, 67, 40000 + s.rng.Intn(100)}[s.rng.Intn(4)])
+		case r < 70:
+			doRead(0)
+			if s.loops == 1 || s.rng.Intn(3) == 0 {
+				doReturn(0)
+			}
 		case r < 80:
-			doRead()
+			doReturn(1 + s.rng.Intn(s.loops))
 		case r < 99:
 			doFinish(1 + s.rng.Intn(len(s.order)+1))
 		default:
@@ -397,22 +488,39 @@ func (s *sim) run(t *testing.T, steps []step, randomN int) {
 		}
 	}
 	// drain: read what is left, close, finish every handler
-	for doRead() {
+	doReturn(0)
+	for doRead(0) {
+		doReturn(0)
 	}
 	doClose()
+	doReturn(0)
 	for k := 1; k <= len(s.order); k++ {
 		doFinish(k)
 	}
 	s.trace = append(s.trace, map[string]any{"a": "End"})
 }
 
-func (s *sim) checkReturn(done chan error) {
-	if s.returned {
+// checkReturn records the Serve calls that have returned since the last look. Several may have returned in the
+// same quiescent step: a read error in one loop closes the connection (deferred Close) and that ends the others,
+// so the causes (read errors) are recorded before their effects (closed).
+func (s *sim) checkReturn(dones map[int]chan error) {
+	from := len(s.trace)
+	for lp := 1; lp <= s.loops; lp++ {
+		s.checkReturn1(lp, dones[lp])
+	}
+	sort.SliceStable(s.trace[from:], func(i, j int) bool {
+		return s.trace[from+i]["ret"] == "readerr" && s.trace[from+j]["ret"] != "readerr"
+	})
+}
+
+func (s *sim) checkReturn1(lp int, done chan error) {
+	if s.returnedLoop[lp] {
 		return
 	}
 	select {
 	case err := <-done:
-		s.returned = true
+		s.returnedLoop[lp] = true
+		s.returned = len(s.returnedLoop) == s.loops
 		ret := "other"
 		switch {
 		case errors.Is(err, errClosed):
@@ -424,7 +532,7 @@ func (s *sim) checkReturn(done chan error) {
 		default:
 			ret = "other:" + err.Error()
 		}
-		s.trace = append(s.trace, map[string]any{"a": "Return", "ret": ret})
+		s.trace = append(s.trace, map[string]any{"a": "Return", "ret": ret, "lp": lp})
 	default:
 	}
 }
@@ -450,13 +558,13 @@ func TestServerSim(t *testing.T) {
 	defer w.Flush()
 	seed := int64(envInt("VERIF_SEED", 1))
 	id := 0
-	one := func(v4 bool, tag string, steps []step, randomN int) {
+	one := func(v4 bool, loops int, tag string, steps []step, randomN int) {
 		id++
 		myid := id
 		synctest.Test(t, func(t *testing.T) {
-			s := &sim{v4: v4, rng: rand.New(rand.NewSource(seed*7919 + int64(myid)))}
+			s := &sim{v4: v4, loops: loops, rng: rand.New(rand.NewSource(seed*7919 + int64(myid)))}
 			s.run(t, steps, randomN)
-			b, _ := json.Marshal(map[string]any{"id": myid, "v4": v4, "mode": tag, "ev": s.trace})
+			b, _ := json.Marshal(map[string]any{"id": myid, "v4": v4, "loops": loops, "mode": tag, "ev": s.trace})
 			w.Write(b)
 			w.WriteByte('\n')
 		})
@@ -471,12 +579,16 @@ func TestServerSim(t *testing.T) {
 		for sc.Scan() {
 			var c struct {
 				Steps []step `json:"steps"`
+				Loops int    `json:"loops"`
 			}
 			if err := json.Unmarshal(sc.Bytes(), &c); err != nil {
 				t.Fatal(err)
 			}
-			one(true, "tlc", c.Steps, 0)
-			one(false, "tlc", c.Steps, 0)
+			if c.Loops == 0 {
+				c.Loops = 1
+			}
+			one(true, c.Loops, "tlc", c.Steps, 0)
+			one(false, c.Loops, "tlc", c.Steps, 0)
 		}
 		sf.Close()
 	}
@@ -486,7 +598,7 @@ func TestServerSim(t *testing.T) {
 		if i%10 == 0 {
 			n = 400 + rng.Intn(300) // long sequences (about 200 datagrams)
 		}
-		one(i%2 == 0, "random", nil, n)
+		one(i%2 == 0, 1+(i/2)%3/2, "random", nil, n) // every third pair with two goroutines running Serve
 	}
 	fmt.Println("sims", id)
 }
